@@ -12,6 +12,7 @@ import (
 	"verif/harness/internal/ev"
 	"verif/harness/internal/msg"
 	"verif/harness/internal/obs"
+	"verif/harness/internal/sched"
 	"verif/harness/internal/verify"
 	"verif/harness/internal/world"
 	"verif/harness/internal/xt"
@@ -256,14 +257,33 @@ func c10RunP(sc c10Scenario, plan []c10Fault, primed bool) c10Obs {
 
 // c10Judge applies the fail-closed oracle to one reply.
 func c10Judge(sc c10Scenario, w *world.World, rep *world.Reply) c10Obs {
-	o := c10Obs{Calls: rep.Calls, Detail: map[string]any{}, Spawned: rep.Spawned}
+	var fired []string
 	for _, f := range w.Store.Fired() {
 		// occurrence numbers relative to the judged request (primed histories)
 		i, j := strings.LastIndex(f, "#"), strings.LastIndex(f, "=")
 		var n int
 		fmt.Sscanf(f[i+1:j], "%d", &n)
-		o.Fired = append(o.Fired, fmt.Sprintf("%s#%d%s", f[:i], n-w.OccBase[f[:i]], f[j:]))
+		fired = append(fired, fmt.Sprintf("%s#%d%s", f[:i], n-w.OccBase[f[:i]], f[j:]))
 	}
+	return c10JudgeFired(sc, rep, fired)
+}
+
+// c10FiredOf: the failures injected into the storage calls of ONE request ("Op#occurrence-within-this-request=kind").
+func c10FiredOf(calls []world.Call) []string {
+	occ := map[string]int{}
+	var out []string
+	for _, c := range calls {
+		occ[c.Op]++
+		if c.Fault != "" {
+			out = append(out, fmt.Sprintf("%s#%d=%s", c.Op, occ[c.Op], c.Fault))
+		}
+	}
+	return out
+}
+
+// c10JudgeFired applies the fail-closed oracle to one reply given the failures that hit this request.
+func c10JudgeFired(sc c10Scenario, rep *world.Reply, firedList []string) c10Obs {
+	o := c10Obs{Calls: rep.Calls, Detail: map[string]any{}, Spawned: rep.Spawned, Fired: firedList}
 	bad := func(c string) { o.Clauses = append(o.Clauses, c) }
 	m := obs.Decode(rep)
 	o.Detail["reply"] = obs.Describe(rep, m)
@@ -366,6 +386,9 @@ func init() { Registry["C10"] = runC10 }
 
 func runC10(ctx Ctx) int {
 	world.PinClock()
+	if rc, ok := concDispatch("C10", ctx); ok {
+		return rc
+	}
 	run := ev.NewRun("C10")
 	run.Level = "fault_enumeration"
 	run.Rule = "for each of the endpoint scenarios (SSO x4, callback x {POST, Redirect} x {done, pending, unknown id} + unusable configured algorithms, logout, attribute query x2, metadata with signing off/on/unusable algorithm, certificate, ready, healthz) the fault-free run records the ordered storage call trace; every call occurrence x every applicable fault kind (returned error, context deadline / cancellation error; user-info: error after some setters were already called; for the key getters: nil record, key without certificate, certificate without key, empty certificate, garbage certificate, zero key, certificate of another key, private key of another certificate) is injected singly, and for every run that continues past the fault every later call occurrence is faulted too (all pairs; thorough: triples); traces are re-recorded on every run; after every single fault the same request is sent again to the same provider with storage healthy and must get the fault-free outcome; every plan is also run AFTER the same request was served fault-free by the same provider (occurrences counted from the second request); a case whose handler starts goroutines is re-run under the controlled scheduler for every interleaving (preemption bound 1 quick / 2 thorough, statement granularity). A case is distinct by (scenario, fault plan)"
@@ -558,6 +581,59 @@ func runC10(ctx Ctx) int {
 	run.Set("scenarios", names)
 	run.Sample(c10Replay{"callback-post-done", []c10Fault{{"SetUserinfoWithUserID", 1, world.FaultError}}, false})
 	run.Sample(c10Replay{"metadata-signing-rsa-sha256", []c10Fault{{"GetResponseSigningKey", 1, world.FaultNoCert}, {"GetMetadataSigningKey", 1, world.FaultNilRecord}}, true})
+	{
+		cb, cs := 1, 90
+		if run.Tier == "thorough" {
+			cb, cs = 2, 1200
+		}
+		runConc(run, "C10", cb, cs)
+	}
 	finishCapped(run, complete, fmt.Sprintf("%d scenarios; all single faults and all %s on the discovered traces", len(scs), map[int]string{2: "pairs", 3: "pairs and triples"}[maxDepth]))
 	return run.Finish()
 }
+
+
+// ---- concurrent part: the same request twice at the same time on ONE provider while one storage operation fails once -------------
+// The failure hits whichever request reaches the operation first. That request must fail closed (sequential oracle on the
+// failures recorded in ITS storage calls); the other one sees healthy storage and must not panic.
+
+func c10ConcScenarios() []concScenario {
+	var out []concScenario
+	for _, sc := range c10Scenarios() {
+		sc := sc
+		if sc.Kind == "probe" || strings.Contains(sc.Name, "-alg-") || strings.Contains(sc.Name, "unknown-alg") || strings.Contains(sc.Name, "rsa-sha512") {
+			continue
+		}
+		w0, req0 := sc.Build()
+		seen := map[string]bool{}
+		for _, call := range w0.Do(req0).Calls {
+			if seen[call.Op] || len(c10Kinds(call.Op)) == 0 {
+				continue
+			}
+			seen[call.Op] = true
+			op := call.Op
+			out = append(out, concScenario{
+				Name: sc.Name + " || " + sc.Name + " [one failing " + op + "]",
+				Build: func() (*world.World, []func() *world.Reply) {
+					w, r0 := sc.Build()
+					_, r1 := sc.Build()
+					w.Store.FaultNext(op, 1, world.FaultError)
+					return w, []func() *world.Reply{func() *world.Reply { return w.Do(r0) }, func() *world.Reply { return w.Do(r1) }}
+				},
+				Judge: func(w *world.World, reps []*world.Reply, _ *sched.Exec) []concFinding {
+					var fs []concFinding
+					for t, rep := range reps {
+						o := c10JudgeFired(sc, rep, c10FiredOf(rep.Calls))
+						for _, c := range o.Clauses {
+							fs = append(fs, concFinding{Clause: c, Thread: t, Detail: fmt.Sprint(o.Detail)})
+						}
+					}
+					return fs
+				},
+			})
+		}
+	}
+	return out
+}
+
+func init() { concRegistry["C10"] = c10ConcScenarios }
